@@ -191,6 +191,7 @@ type rres struct {
 	// defined (hzChunksIface, hzPtrWhole)
 	Soft     map[string]bool
 	OutMulti bool
+	OutSTy   ty
 	Events      map[string]bool
 	Execs       int
 }
@@ -251,6 +252,17 @@ type pend struct {
 	V     any
 	Ty    ty
 	Multi bool
+	// STy: the chunk type of the stream form. It is the type the producing node was declared with
+	// and changes only where the framework converts (a run-time checked edge, a key wrapper, a
+	// mapping, a fan-in); a nested graph hands on whatever reached its END.
+	STy ty
+}
+
+// got: what a consumer receives.
+type got struct {
+	V     any
+	Multi bool
+	STy   ty
 }
 
 // splittable: may splitVal cut v, declared as static, into several chunks.
@@ -259,7 +271,8 @@ func splittable(v any, static ty) bool {
 	case string:
 		return static == tStr
 	case map[string]any:
-		return static == tMap && x != nil
+		_ = x // (a nil map may have become an empty one on the way, which splits into empty chunks)
+		return static == tMap
 	}
 	return false
 }
@@ -284,27 +297,30 @@ func (r *rres) edge(v any, from, to ty) any {
 
 // deliver: the value a consumer declared as `to` sees, given what its predecessors sent.
 // One predecessor: the edge. Several: every edge, then eino's fan-in merge.
-func (r *rres) deliver(ps []pend, to ty) (any, bool) {
+func (r *rres) deliver(ps []pend, to ty) got {
+	after := func(p pend) ty {
+		if latOf(p.Ty, to) == latMay {
+			return to // the run-time check hands on values (chunks) of the consumer's type
+		}
+		return p.STy
+	}
 	if len(ps) == 1 {
-		return r.edge(ps[0].V, ps[0].Ty, to), ps[0].Multi
+		return got{r.edge(ps[0].V, ps[0].Ty, to), ps[0].Multi, after(ps[0])}
 	}
 	vals := make([]any, len(ps))
 	statics := make([]ty, len(ps))
 	for i, p := range ps {
 		vals[i] = r.edge(p.V, p.Ty, to)
 		if r.stopped() {
-			return nil, false
+			return got{}
 		}
-		statics[i] = p.Ty
-		if latOf(p.Ty, to) == latMay {
-			statics[i] = to // the run-time check hands on values (chunks) of the consumer's type
-		}
+		statics[i] = after(p)
 	}
 	for _, v := range vals {
 		if v == nil {
 			r.event("nil-at-fan-in")
 			r.Fail = "fan-in-of-nil"
-			return nil, false
+			return got{}
 		}
 	}
 	valueOK, dup := true, false
@@ -329,8 +345,10 @@ func (r *rres) deliver(ps []pend, to ty) (any, bool) {
 		}
 	}
 	switch {
+	case !valueOK && streamOK:
+		r.Fail = "harness: map-typed streams of non-maps"
 	case !valueOK:
-		r.Fail = "fan-in-of-non-maps" // then no declared type is a map either
+		r.Fail = "fan-in-of-non-maps"
 	case dup && streamOK:
 		r.Hazard = hzDupKey
 	case dup:
@@ -338,9 +356,9 @@ func (r *rres) deliver(ps []pend, to ty) (any, bool) {
 	case !streamOK:
 		r.Hazard = hzAnyFanIn
 	default:
-		return merged, true // one chunk per predecessor at least
+		return got{merged, true, tMap} // one chunk per predecessor at least
 	}
-	return nil, false
+	return got{}
 }
 
 // fieldTy: the declared type of field / key `f` of a value declared as t.
@@ -484,7 +502,7 @@ func (r *rres) mapOne(v any, from ty, m *fmapSpec, to ty) any {
 
 // consume: what the consumer declared as `to` receives: over a plain edge, a mapped edge
 // (workflow), or a mapped fan-in (workflow: predecessor i goes ToField(join[i])).
-func (r *rres) consume(ps []pend, to ty, m *fmapSpec, join []string) (any, bool) {
+func (r *rres) consume(ps []pend, to ty, m *fmapSpec, join []string) got {
 	if join != nil {
 		merged := map[string]any{}
 		for i, p := range ps {
@@ -493,13 +511,13 @@ func (r *rres) consume(ps []pend, to ty, m *fmapSpec, join []string) (any, bool)
 			}
 			merged[join[i]] = p.V
 		}
-		return merged, true
+		return got{merged, true, to}
 	}
 	if m != nil {
 		if _, isMap := ps[0].V.(map[string]any); isMap && ps[0].Multi && m.From != "" && m.To == "" && to == tPtr {
 			r.soft(hzPtrWhole)
 		}
-		return r.mapOne(ps[0].V, ps[0].Ty, m, to), ps[0].Multi
+		return got{r.mapOne(ps[0].V, ps[0].Ty, m, to), ps[0].Multi, to}
 	}
 	return r.deliver(ps, to)
 }
@@ -510,26 +528,27 @@ type refEnv struct {
 }
 
 // runNode: a node body applied to its (already delivered) input.
-func (r *rres) runNode(n *tnode, in any, multi bool, env refEnv) (any, bool) {
+func (r *rres) runNode(n *tnode, g got, env refEnv) got {
+	in, multi, sty := g.V, g.Multi, g.STy
 	if n.InKey != "" {
 		m, ok := in.(map[string]any)
 		if !ok {
 			r.Fail = "harness: keyed node got " + canon(in)
-			return nil, false
+			return got{}
 		}
 		v, present := m[n.InKey]
 		if !present {
 			r.Hazard = hzMissingInKey
-			return nil, false
+			return got{}
 		}
 		if v == nil {
 			r.event("nil-under-input-key")
 		}
 		if !dynOK(v, n.In) {
 			r.Fail = "input-key-type-check"
-			return nil, false
+			return got{}
 		}
-		in = v
+		in, sty = v, n.In
 	}
 	var out any
 	switch {
@@ -537,7 +556,7 @@ func (r *rres) runNode(n *tnode, in any, multi bool, env refEnv) (any, bool) {
 		if in == nil {
 			r.event("nil-into-nested")
 		}
-		sub := evalSpec(n.Sub, in, multi, env)
+		sub := evalSpec(n.Sub, pend{in, n.In, multi, sty}, env)
 		r.Execs += sub.Execs
 		for e := range sub.Events {
 			r.event(e)
@@ -547,9 +566,9 @@ func (r *rres) runNode(n *tnode, in any, multi bool, env refEnv) (any, bool) {
 		}
 		if sub.stopped() {
 			r.Fail, r.Hazard = sub.Fail, sub.Hazard
-			return nil, false
+			return got{}
 		}
-		out, multi = sub.Val, sub.OutMulti
+		out, multi, sty = sub.Val, sub.OutMulti, sub.OutSTy
 		if out == nil {
 			r.event("nil-out-of-nested")
 		}
@@ -564,6 +583,7 @@ func (r *rres) runNode(n *tnode, in any, multi bool, env refEnv) (any, bool) {
 		}
 		r.Execs++
 		out = n.body(in)
+		sty = n.Out
 		if !(n.Dyn == dSame && n.Lazy && n.Para&pT != 0) {
 			// (an untyped nil may come as several nil chunks, which an output key turns into maps)
 			multi = !env.atomic && n.Para&(pS|pT) != 0 && (splittable(out, n.Out) || out == nil)
@@ -574,8 +594,9 @@ func (r *rres) runNode(n *tnode, in any, multi bool, env refEnv) (any, bool) {
 			r.event("nil-under-output-key")
 		}
 		out = map[string]any{n.OutKey: out}
+		sty = tMap
 	}
-	return out, multi
+	return got{out, multi, sty}
 }
 
 // body: the function a lambda node computes (shared by the reference and the real node).
@@ -624,30 +645,27 @@ func (r *rres) segs(s *tspec, cur []pend, env refEnv) []pend {
 			if n.Pass {
 				to, oty = cur[0].Ty, cur[0].Ty
 			}
-			var out any
-			var multi bool
+			var out got
 			if !r.stopped() {
-				v, m := r.consume(cur, to, n.Map, n.JoinKeys)
+				g := r.consume(cur, to, n.Map, n.JoinKeys)
 				if !r.stopped() {
-					out, multi = r.runNode(n, v, m, env)
+					out = r.runNode(n, g, env)
 				}
 			}
-			next = []pend{{out, oty, multi}}
+			next = []pend{{out.V, oty, out.Multi, out.STy}}
 		case "par":
 			for _, n := range sg.Nodes {
-				var out any
-				var multi bool
+				var out got
 				if !r.stopped() {
-					v, m := r.consume(cur, n.effIn(), n.Map, nil)
+					g := r.consume(cur, n.effIn(), n.Map, nil)
 					if !r.stopped() {
-						out, multi = r.runNode(n, v, m, env)
+						out = r.runNode(n, g, env)
 					}
 				}
-				next = append(next, pend{out, n.effOut(), multi})
+				next = append(next, pend{out.V, n.effOut(), out.Multi, out.STy})
 			}
 		case "branch":
-			var out any
-			var multi bool
+			var out got
 			oty := sg.Nodes[0].effOut()
 			if !r.stopped() {
 				cv := r.edge(cur[0].V, cur[0].Ty, sg.CondTy)
@@ -660,17 +678,17 @@ func (r *rres) segs(s *tspec, cur []pend, env refEnv) []pend {
 					}
 					n := sg.Nodes[pickTarget(sg.CondRule, cv, len(sg.Nodes))]
 					oty = n.effOut()
-					v, m := r.consume(cur, n.effIn(), nil, nil)
+					g := r.consume(cur, n.effIn(), nil, nil)
 					if !r.stopped() {
-						out, multi = r.runNode(n, v, m, env)
+						out = r.runNode(n, g, env)
 					}
 				}
 			}
-			next = []pend{{out, oty, multi}}
+			next = []pend{{out.V, oty, out.Multi, out.STy}}
 		}
 		if r.stopped() {
 			for i := range next {
-				next[i].V, next[i].Multi = zeroOf(next[i].Ty), false
+				next[i].V, next[i].Multi, next[i].STy = zeroOf(next[i].Ty), false, next[i].Ty
 			}
 		}
 		cur = next
@@ -678,27 +696,28 @@ func (r *rres) segs(s *tspec, cur []pend, env refEnv) []pend {
 	return cur
 }
 
-// evalSpec: the reference result of the program s on the input `in` (inMulti: the input may arrive
-// as several non-nil chunks, which is the case for Collect / Transform calls and nested programs).
-func evalSpec(s *tspec, in any, inMulti bool, env refEnv) *rres {
+// evalSpec: the reference result of the program s on the input `in` (in.Multi: the input may
+// arrive as several non-nil chunks, which is the case for Collect / Transform calls and nested
+// programs).
+func evalSpec(s *tspec, in pend, env refEnv) *rres {
 	r := &rres{}
-	if in == nil {
+	if in.V == nil {
 		r.event("nil-graph-input")
 	}
-	cur := r.segs(s, []pend{{in, s.In, inMulti}}, env)
+	cur := r.segs(s, []pend{in}, env)
 	if r.stopped() {
 		return r
 	}
-	v, multi := r.consume(cur, s.Out, s.EndMap, s.EndJoin)
+	g := r.consume(cur, s.Out, s.EndMap, s.EndJoin)
 	if r.stopped() {
 		return r
 	}
-	if v == nil {
+	if g.V == nil {
 		r.event("nil-at-END")
 	}
-	if multi && isIface(s.Out) {
+	if g.Multi && isIface(s.Out) {
 		r.soft(hzChunksIface)
 	}
-	r.Val, r.OutMulti = v, multi
+	r.Val, r.OutMulti, r.OutSTy = g.V, g.Multi, g.STy
 	return r
 }
